@@ -114,11 +114,17 @@ def gen_route_body(rng, ok: bool = True) -> str:
                 'ipv6 unicast 2001:db8::/129 next-hop 2001:db8::1',
                 'flow route { match',
                 'route 10.0.1.0/24 next-hop 192.0.2.1 bogus-attribute 7',
+                # several statements on one line, a later one refused: nothing of the line may stay anywhere
+                f'route {rng.choice(V4_ROUTES)} next-hop {rng.choice(NH4)} ; route {rng.choice(V4_ROUTES)} next-hop bogus',
+                f'route {rng.choice(V4_ROUTES)} next-hop {rng.choice(NH4)}{rng.choice(ATTRS)} ; route 10.0.0.0/33 next-hop 192.0.2.1',
+                f'route {rng.choice(V4_ROUTES)} next-hop {rng.choice(NH4)} ; route {rng.choice(V6_ROUTES)} next-hop {rng.choice(NH6)} ; bogus',
             ]
         )
     x = rng.random()
-    if x < 0.62:
+    if x < 0.57:
         return f'route {rng.choice(V4_ROUTES)} next-hop {rng.choice(NH4)}{rng.choice(ATTRS)}'
+    if x < 0.62:  # two statements on one line, both accepted
+        return f'route {rng.choice(V4_ROUTES)} next-hop {rng.choice(NH4)}{rng.choice(ATTRS)} ; route {rng.choice(V4_ROUTES + V6_ROUTES[:0])} next-hop {rng.choice(NH4)}'
     if x < 0.78:
         return f'route {rng.choice(V6_ROUTES)} next-hop {rng.choice(NH6)}{rng.choice(ATTRS)}'
     if x < 0.88:
@@ -459,6 +465,28 @@ def unparsed_changes(res: dict) -> list[int]:
     for fn, act, words, result, k in res['parse_log']:
         calls.setdefault(k, []).append(result)
     return [k for k, rs in calls.items() if 0 <= k < len(res['commands']) and not any(rs) and changed(res['before'][k], res['after'][k])]
+
+
+_ALONE: dict[str, Any] = {}
+
+
+def _all_fails(case: dict, res: dict) -> list[dict]:
+    return oracle(case, res) + parse_history_fails(case, res)
+
+
+def parse_history_fails(case: dict, res: dict) -> list[dict]:
+    """What the parser returned for a command text is what a daemon that parsed nothing before returns for
+    the same text: a command changes the RIBs by ITS routes, not by what an earlier (refused) line left behind."""
+    out = []
+    for (fn, act, words, _result, k), content in zip(res['parse_log'], res.get('parse_content', [])):
+        if fn == 5 or not 0 <= k < len(res['commands']):  # api_attributes takes the peers of the command: outside this oracle
+            continue
+        key = json.dumps([case['version'] if fn == 6 else 0, fn, act, words])
+        if key not in _ALONE:
+            _ALONE[key] = apirig.parse_alone(case['version'], specs_of(case), fn, act, words)
+        if content != _ALONE[key] and (content or _ALONE[key]):
+            out.append({'what': 'parse-history', 'line': -1, 'detail': f'command {res["commands"][k]!r}: the parser returned {len(content or [])} route(s) {content}, the same text parsed by a daemon that parsed nothing before gives {_ALONE[key]}'})
+    return out
 
 
 # ---------------------------------------------------------------------------------------------
@@ -832,6 +860,7 @@ def eval_case(ctx: Ctx, case: dict, quirks: dict, seen: set, origin: str, pendin
         got, want = res['stream'], [w for w in res['written'] if w]
         i = next((k for k, (a, b) in enumerate(zip(got, want)) if a != b), min(len(got), len(want)))
         fails.append({'what': 'order', 'line': -1, 'detail': f'the helper reads {got[i:i+4]} where ExaBGP answered {want[i:i+4]} (line {i} of {len(want)}; helper stalled: {bool(case.get("stall"))})'})
+    fails += parse_history_fails(case, res)
     for k in unparsed_changes(res):
         fails.append({'what': 'nochange', 'line': -1, 'detail': f'command {res["commands"][k]!r}: the parser refused it, yet a RIB changed'})
     nontrivial = bool(res['commands']) and len(res['chunks']) >= 2 and any(changed(b, a) for b, a in zip(res['before'], res['after'])) and any('e' in terminal(r) for r in res['replies'])
@@ -854,9 +883,9 @@ def eval_case(ctx: Ctx, case: dict, quirks: dict, seen: set, origin: str, pendin
                 f = dict(f, detail=f'{small["lines"][0]["text"]!r}: ' + again[0]['detail'])
         else:
             small, canon, kind = case, {'what': f['what'], 'line': case['lines'][f['line']]['text'] if f['line'] >= 0 else '', 'version': case['version']}, 'api-' + f['what']
-            if f['what'] in ('ack', 'nochange', 'order') and 'lines' in case:
+            if f['what'] in ('ack', 'nochange', 'order', 'parse-history') and 'lines' in case:
                 what = f['what']
-                small = shrink_lines(case, lambda c: any(g['what'] == what for g in oracle(c, run_real(c, c.get('cuts', [])))))
+                small = shrink_lines(case, lambda c: any(g['what'] == what for g in _all_fails(c, run_real(c, c.get('cuts', [])))))
                 canon = {'what': what, 'lines': [nospace(l['text']) for l in small['lines']], 'version': small['version']}
         key = json.dumps([kind, canon], sort_keys=True)
         if key in seen:
@@ -931,7 +960,7 @@ def replay(path: str) -> int:
     print('api version:', case['version'], ' neighbors:', [s['peer'] + ('' if s['attached'] else ' (other process)') for s in specs_of(case)])
     for k, c in enumerate(res['commands']):
         print(f'{k}: {c[:200]!r}\n    replies {res["replies"][k]!r}\n    changed neighbors {sorted(changed(res["before"][k], res["after"][k]))}')
-    fails = oracle(case, res)
+    fails = _all_fails(case, res)
     res2 = run_real(case, case.get('cuts2', []))
     if not same_outcome(res, res2):
         fails.append({'what': 'chunking', 'line': -1, 'detail': f'{len(res["commands"])} commands / killed={res["dead"]} under the first chunking, {len(res2["commands"])} / killed={res2["dead"]} under the second'})
